@@ -28,6 +28,7 @@ PKG = "happysimulator"
 
 LOOP_SPECS = {}      # (relpath, qualname, ordinal) -> LoopSpec
 GHOST_STMTS = {}     # (relpath, qualname) -> [(pattern, code, where)]
+DRIFT = []           # (relpath, qualname, what): spec anchors that no longer match the source
 LOADED = {}          # module name -> relpath
 SRC_SHA = {}         # relpath -> sha1 of source
 TRANSFORM_LOG = {}   # relpath -> dict(counts)
@@ -265,12 +266,17 @@ class _Rewriter(ast.NodeTransformer):
             if where in ("before*", "after*"):      # at EVERY matching simple statement of the function
                 n_ins = _insert_every(body, pattern, code, where[:-1])
                 if not n_ins:
-                    raise SpecError(f"ghost statement: pattern {pattern!r} not found in {self.relpath}:{q}")
+                    DRIFT.append((self.relpath, q, f"ghost anchor {pattern!r} not found"))
                 self.counts["ghost"] += n_ins
                 continue
             ok = _insert_after(body, pattern, guard, where)
             if not ok:
-                raise SpecError(f"ghost statement: pattern {pattern!r} not found in {self.relpath}:{q}")
+                # the anchored statement is gone from the source (the function was changed): the ghost update / ghost
+                # assertion cannot be attached.  The function is still verified against every other clause - a clause
+                # that now fails is a VIOLATION - and the drift itself is reported as not-decided (exit 2), never
+                # as a pass and never as a violation
+                DRIFT.append((self.relpath, q, f"ghost anchor {pattern!r} not found"))
+                continue
             self.counts["ghost"] += 1
         return body
 
